@@ -148,11 +148,6 @@ func buildReport(
 ) Outcome {
 	roots := maps.Values(consensusObservation.MerkleRoots)
 
-	outcomeType := ReportGenerated
-	if len(roots) == 0 {
-		outcomeType = ReportEmpty
-	}
-
 	sort.Slice(roots, func(i, j int) bool { return roots[i].ChainSel < roots[j].ChainSel })
 
 	sigs := make([]cciptypes.RMNECDSASignature, 0)
@@ -212,6 +207,14 @@ func buildReport(
 			}
 		}
 		roots = rootsToReport
+	}
+
+	// Decide after the RMN filter: without a root to report the report is empty, and RMN signatures are never
+	// carried without merkle roots (they would make an otherwise empty report non-empty).
+	outcomeType := ReportGenerated
+	if len(roots) == 0 {
+		outcomeType = ReportEmpty
+		sigs = make([]cciptypes.RMNECDSASignature, 0)
 	}
 
 	outcome := Outcome{
